@@ -100,6 +100,8 @@ def run(job, res):
         res['paths'] += eng.stats['paths']
         res['queries'] += eng.stats['queries']
         res['solver_s'] += eng.stats['solver_s']
+        for u in eng.unexplored:
+            res['inconclusive'].append('asm(%r): %s' % (tmpl, u))
         for r in rs:
             if r[0] == 'OK':
                 res['obligations'] += 1
